@@ -593,7 +593,11 @@ fn observe(b: &[u8], r: &mut Rng) -> (String, String) {
 
 fn case(kind: &str, b: Vec<u8>, r: &mut Rng) -> (String, String) {
     let tn = if b.is_empty() { "empty" } else { tname(b[0]) };
-    let (o, term) = observe(&b, r);
+    // a panic anywhere in deserialize / the TLV iterator / PartialEq is itself the observation
+    let (o, term) = match catch(|| observe(&b, &mut *r)) {
+        Some(x) => x,
+        None => ("panic".to_string(), "(mkObs ObsPanic true)".to_string()),
+    };
     (format!("{}:{}:{}", kind, tn, o), format!("({}, {})", b7(&b), term))
 }
 
